@@ -86,8 +86,22 @@ fn gen_path(rng: &mut Rng) -> Path {
             }
             4 => ops.push(PathOp::Close),
             5 | 6 | 7 | 8 => {
-                let c = if rng.chance(0.1) { last.unwrap_or_else(|| pt(rng)) } else { pt(rng) };
                 let p = pt(rng);
+                let c = if rng.chance(0.1) {
+                    last.unwrap_or_else(|| pt(rng))
+                } else if rng.chance(0.1) && last.is_some() {
+                    // exactly on the line through the end points, inside or beyond them (integer end points
+                    // and dyadic factors keep this exact)
+                    let a = last.unwrap();
+                    let (ax, ay, bx, by) = (a.x.round(), a.y.round(), p.x.round(), p.y.round());
+                    let k = *rng.pick(&[-1.0f32, -0.5, 0.25, 0.5, 1.5, 2.0, 4.0]);
+                    ops.push(PathOp::LineTo(Point::new(ax, ay)));
+                    ops.push(PathOp::QuadTo(Point::new(ax + (bx - ax) * k, ay + (by - ay) * k), Point::new(bx, by)));
+                    last = Some(Point::new(bx, by));
+                    continue;
+                } else {
+                    pt(rng)
+                };
                 ops.push(PathOp::QuadTo(c, p));
                 last = Some(p);
             }
